@@ -73,3 +73,23 @@ Example C05_example :
   plain (bs "a \ { } @ me@x.org -- <p class='q'> 100% }} {") = true /\
   plain (bs "x {{ 1 }}") = false /\ plain (bs "@if") = false.
 Proof. exact plain_example. Qed.
+
+(* ---- text between active syntax (Proofs/LexRound.v): in a source that spells a checked list of
+   items, every text run between {{ }} blocks and directives - any bytes but NUL, line feeds and
+   backslashes included - is one HTML token whose literal is the run itself (place gives an item's
+   literal as its spelling unless it is a string); comments {{-- ... --}} before any such item and at
+   the end of the source yield no token, whatever they hold short of the terminator (a gap of the
+   item: the check gap_html finds each comment's end with the specification's find_term) *)
+From TW Require Import LexRound.
+
+Theorem C05_text_between_syntax_is_kept its tg :
+  source_ok_t its tg = true ->
+  lex_all (spell_t its tg) = Some (place_t (spell_t its tg) 0 its (List.length tg)).
+Proof. exact (lex_spell_t its tg). Qed.
+Print Assumptions C05_text_between_syntax_is_kept.
+
+Definition nl := String (Ascii.ascii_of_nat 10) EmptyString.
+Example C05_text_between_syntax_example :
+  in_domain (bs ("a < b > c {{ x }} 100% }} { @ me@x.org" ++ nl ++ "c:\dir \ @if(y) <p class='q'>" ++ nl ++ nl ++ " @end tail" ++ nl)) = true /\
+  in_domain (bs ("{{-- {{ 1 }} @if(x) -- }} --}}a{{-- b --}}{{--}}{{ x }}{{-- c" ++ nl ++ "d --}}")) = true.
+Proof. vm_compute. split; reflexivity. Qed.
